@@ -35,3 +35,16 @@ def join(sep, parts):
     from . import strings
 
     return strings.join(sep, parts)
+
+
+def float_(x):
+    """`float(x)`: symbolic scalars (and 0-d / 1-element symbolic arrays) become float-sorted symbolic scalars."""
+    from .core import r_to_float, is_sym
+
+    if isinstance(x, SV) or type(x).__name__ == "FPV":
+        return box(r_to_float(raw(x)))
+    if type(x).__name__ == "ndarray" and type(x).__module__.startswith("symx") and x.size == 1:
+        c = x.data[0]
+        if is_sym(c) or type(c).__name__ == "FPV":
+            return box(r_to_float(c))
+    return float(x)
